@@ -1,6 +1,7 @@
 import HawkModel.DeparseStable
 import HawkModel.DeparseGlueTable
 import HawkModel.DeparseStmtStable
+import HawkModel.DeparseProgLemmas
 /-!
   C17 — "Deparsed source is equivalent to the original", expression language, token level.
 
@@ -14,7 +15,7 @@ import HawkModel.DeparseStmtStable
   Statement level (`HawkModel/DeparseStmt.lean`): `printS` = lib/tree.c print_stmt, `parseStmt` = lib/parse.c
   parse_statement ... parse_print, keyword and redirection spellings from the generated `Gen/Keywords.lean`;
   `WFS` = the statement trees the parser can return, `normS` / `EquivS` = `norm` / `Equiv` in every expression position.
-  Not covered here (correspondence only): getline forms, print with a redirection (model and correspondence, no theorem),
+  Not covered here (correspondence only): getline forms,
   the top level (globals, functions, pattern-action chains), regular expression literals, string/char escapes,
   re-rendered floating-point constants, nesting depth.
 -/
@@ -132,9 +133,11 @@ example : parse (print (.bin .CONCAT (.var "a") (.int (-1) none))) = .ok (.bin .
     A last argument that is itself a `>`, `>>`, `|`, `||` node - `print (a > b);` - is covered: parse_print would take it apart
     again, but its parenthesis bookkeeping (`closesAtEnd`: the closing parenthesis before the terminator closes the one the
     argument began with) says the argument was parenthesised; that is proved from the balance of printed expressions (`balA`).
-    `_partial`: `WFS` leaves out print / printf WITH a redirection (model and correspondence cover it, the proof does not: the
-    node is read as one binary expression up to the `;` and then taken apart - `bin_inner_semi` proves the first half), and
-    getline (not in the model). -/
+    print / printf WITH a redirection (`>`, `>>`, `|`, `||`, also with no argument) is covered: the last argument and the target
+    are read as ONE binary node up to the `;` (`bin_inner_semi`, `pExpr_redir`), parse_print's parenthesis bookkeeping is NOT
+    confirmed because the parenthesis the argument may begin with is closed before the end of what was consumed
+    (`inParens_early`, from `paren_shape` / `balA`), and the node is taken apart again into argument and target (`splitLast_resR`).
+    `_partial` only because getline (an expression node the expression model answers `unsupported` for) is not in the model. -/
 theorem stmt_roundtrip_partial (s : Stmt) (h : WFS s) (outer d : Nat) :
     ∃ r, parseStmt (sz s) outer (toksS (printS outer d s)) = .ok (normS s, r) ∧ dropNl r = [] := by
   have := rtS s h outer d (sz s) [] (Nat.le_refl _) (by intro _; simp [dropNl, k1])
@@ -201,6 +204,17 @@ theorem redirection_spelling_reads_back (r : Redir) : redirOfTok (tkOfSpelling r
 theorem renaming_injective (c c' : Char) (i i' : Nat) (h : renName c i = renName c' i') : c = c' ∧ i = i' :=
   renName_injective c c' i i' h
 
+/-- the renaming is consistent over a whole program unit: with the declarations the deparser writes (`@global __g<gb>, ...;` for
+    `nG` globals numbered from the first non-builtin index `gb`, `(__p0, ...)` for `nP` parameters, `@local __l0, ...;` for `nL`
+    locals, in declaration order), every name it writes for a variable resolves - locals first, then parameters, then globals, as
+    parse_primary_ident does - back to the same kind and the same number; no canonical name is shadowed by another one.  So the
+    deparsed program is the original one with its variables renamed one-to-one (alpha-equivalent). -/
+theorem canonical_names_resolve (nL nP gb nG : Nat) :
+    (∀ i, i < nL → resolveName nL nP gb nG (renName 'l' i) = some ('l', i)) ∧
+    (∀ i, i < nP → resolveName nL nP gb nG (renName 'p' i) = some ('p', i)) ∧
+    (∀ i, i < nG → resolveName nL nP gb nG (renName 'g' (gb + i)) = some ('g', gb + i)) :=
+  ⟨fun i h => resolve_local nL nP gb nG i h, fun i h => resolve_param nL nP gb nG i h, fun i h => resolve_global nL nP gb nG i h⟩
+
 /-- ... and the @local line print_stmt writes uses exactly these names, numbered from the count of the enclosing blocks -/
 theorem local_names_are_renamed (i : Nat) : (lclTok i).s = renName 'l' i := lclTok_is_renName i
 
@@ -214,7 +228,33 @@ example : WFS
       (.cons (.for_ none none none .cont)
       (.cons (.forin (.bin .IN (.var "k") (.var "A")) (.del (.idx "A" (.cons (.var "k") .nil))))
       (.cons (.prt false (.cons (.int 1 (some "1")) (.cons (.bin .GT (.var "y") (.var "z")) .nil)) none)
-      (.cons (.reset (.var "A")) (.cons (.ret none) (.cons (.exit_ true (some (.var "q"))) (.cons (.nextfile true) .nil))))))))))) := by
-  simp [WFS, WFSL, WFO, WFparse, WFparseL, Stmt.dropped, openIf, isForinHead, Ast.isVar, grpAlone, foldable]
+      (.cons (.prt true (.cons (.lit .STR "\"%d\"") (.cons (.var "y") .nil)) (some (.apfile, .bin .CONCAT (.var "p") (.lit .STR "\".txt\""))))
+      (.cons (.prt false .nil (some (.pipe, .lit .STR "\"cat\"")))
+      (.cons (.reset (.var "A")) (.cons (.ret none) (.cons (.exit_ true (some (.var "q"))) (.cons (.nextfile true) .nil))))))))))))) := by
+  simp [WFS, WFSL, WFO, WFparse, WFparseL, Stmt.dropped, openIf, isForinHead, Ast.isVar, grpAlone, WFout, litKinds, foldable]
+
+/-! ## the top level -/
+
+/-- a whole program as `deparse` / `deparse_func` write it - the `@global` line with the globals numbered from the number of
+    built-in ones, functions with their `__p<i>` parameter lists, BEGIN and END blocks, pattern-less actions, patterns and ranges
+    with or without an action, in any order and number - is accepted by parse_progunit's loop, which returns exactly the same units
+    with every statement and expression read back as the statement and expression theorems say (`normI`).  Not in the model:
+    by-reference and variadic parameters, @pragma lines, globals printed under their own names (HAWK_IMPLICIT off), getline. -/
+theorem prog_roundtrip_partial (gb : Nat) (l : List Item) (h : ∀ i ∈ l, WFI gb i) (n : Nat) (hn : szP l ≤ n) :
+    parseProg n gb (toksS (printProg l)) = .ok (l.map normI) :=
+  rtP gb l h n hn
+
+/-- one unit in context: whatever follows it is left alone, up to newlines -/
+theorem unit_roundtrip_partial (gb : Nat) (i : Item) (h : WFI gb i) (n : Nat) (rest : List Tok) (hn : szI i ≤ n) :
+    ∃ r, parseItem n gb (toksS (printItem i) ++ rest) = .ok (normI i, r) ∧ dropNl r = dropNl rest :=
+  rtI gb i h n rest hn
+
+example : ∀ i ∈ [Item.glob 22 2, .func "f" 2 (.blk 1 (.cons (.ret (some (.var "__p0"))) .nil)), .begin_ (.blk 0 .nil),
+    .pat (.var "a") (some (.var "b")) (some (.blk 0 (.cons .next .nil))), .pat (.var "c") none none, .act (.blk 0 .nil),
+    .end_ (.blk 0 (.cons (.exit_ false none) .nil))], WFI 22 i := by
+  intro i hi
+  simp only [List.mem_cons, List.not_mem_nil, or_false] at hi
+  rcases hi with rfl | rfl | rfl | rfl | rfl | rfl | rfl <;>
+    simp [WFI, WFact, isBlkP, WFS, WFSL, WFO, WFparse, Stmt.dropped]
 
 end Hawk.Props.C17
